@@ -88,6 +88,19 @@ def one(ctx, i):
                 B.apply_ic(b)
                 if rng.random() < 0.5:
                     b.solver = B.g().Solver(powertrain=b.pt)
+            elif reuse and i % 4 == 1:
+                # the powertrain, its solver and all objects served an earlier study with ANOTHER load function first
+                sp0 = copy.deepcopy(sp)
+                sp0['load']['A'] = GEN.sig(-0.7 * TL + 0.4 * TD * nums['E'], 4)
+                sp0['schedule'] = [{'op': 'run', 'dt': dtq, 'T': GEN.Q('TimeInterval', SI.from_si('TimeInterval', dt_si * 5, tu), tu)}]
+                b = B.build(sp0)
+                B.run_schedule(b)
+                b.pt.reset()
+                b.spec = sp
+                B.apply_ic(b)
+                b.cur_load = sp['load']
+                b.last.external_torque = B.make_load(b, sp['load'])
+                ctx.count('load_function_replaced_before_the_study')
             else:
                 b = B.build(sp)
             runs = B.run_schedule(b)
